@@ -40,6 +40,30 @@ D = {
  "C19-A": ("clone drops an entry through unhinge() (off-by-one size check), which writes through the links copied from the SOURCE", "cloning a cache that is exactly full (current_size == max_size)"),
  "C19-B": ("peek_mru unhinges and re-inserts the MRU entry; a singleton is never re-inserted", "peek_mru on a cache holding exactly one entry"),
  "C20-A": ("remove_ptr gains a debug_assert!(self.contains(key)): a second hash per evicted entry", "one operation that evicts several entries, debug assertions on"),
+ "C10-A2": ("try_insert's fit check computed as current_size + entry_size > max_size (overflows usize)", "user-defined sizes above usize::MAX/2 with a limit near usize::MAX"),
+ "C10-B2": ("try_insert checks occupancy before free memory", "a present key whose new entry also does not fit the free space"),
+ "C03-A2": ("mutate's too-large check uses >= instead of >", "a growing mutate that lands exactly on max_size"),
+ "C03-B2": ("eject_to_target never ejects the last remaining (MRU) entry", "an insert / set_max_size that needs every current entry gone"),
+ "C01-A2": ("the shrinking branch of mutate no longer updates the entry's recorded size", "shrinking mutate, then that entry leaves the cache, then the cache is refilled: the true sum exceeds max_size"),
+ "C01-B2": ("eviction loop stops when LRU == MRU (one entry left)", "an eviction that has to empty a cache holding exactly one entry"),
+ "C14-A2": ("insert_untracked links the new head by hand and never sets its prev: the clone's MRU entry keeps a prev pointer to the SOURCE's seal", "the first list-modifying operation on a fresh clone unhinges the clone's MRU entry"),
+ "C14-B2": ("Entry::clone re-estimates the entry size from the copies while clone() copies current_size verbatim", "a key/value whose copy reports a smaller size (spare capacity), then that entry leaves the clone"),
+ "C13-A2": ("try_reallocate fast path for an empty cache drops the old table before the fallible allocation", "a failing try_reserve on an empty cache that owns a table"),
+ "C13-B2": ("reserve/try_reserve compare the request with buckets() instead of capacity()", "a request in the window capacity < len + additional <= buckets"),
+ "C12-A2": ("IntoIter::drop returns early when the FRONT cursor is untouched", "an owning iterator advanced only with next_back, then dropped with entries left"),
+ "C12-B2": ("IntoValues::next_back pulls from the front", "into_values() driven from the back with >= 2 entries"),
+ "C20-A2": ("the grow path of insert requests len + 1 instead of 2 * capacity", "full table of >= 32 buckets, the evicted LRU leaves a tombstone, the new key lands on an empty bucket"),
+ "C20-B2": ("eject_to_target reallocates when capacity() dropped during ejection", ">= 32 buckets and an eviction that leaves a tombstone"),
+ "C05-A2": ("same-size overwriting insert swaps the value in place and does not promote", "insert on a present non-MRU key with an entry of exactly the old size"),
+ "C05-B2": ("Iter::next_back marks exhaustion on its own cursor only", "the last entry is taken by next_back, then next() is called"),
+ "C19-A2": ("Iter::next_back writes prev = null into the entry where the cursors meet", "a shared-reference traversal whose last element is taken from the back"),
+ "C19-B2": ("peek memo in a Cell (written through &self), not invalidated by drain()", "peek a key, drain, peek the same key again"),
+ "C06-A2": ("Drain::new no longer clears the table (only Drain::drop does)", "a Drain that yielded entries and is leaked, then the cache is dropped/cleared"),
+ "C06-B2": ("Drain::new no longer unhooks the list from the seal (only Drain::drop does)", "leaked partial Drain, then insert, then drain()/into_iter()"),
+ "C04-A2": ("insert makes room before removing the old entry of the same key", "replacing a present key near the LRU end while the cache is full: returns None instead of the old value"),
+ "C04-B2": ("mutate's too-large path removes the LRU entry instead of the mutated one", "a rejected growing mutate of an entry that is not the LRU"),
+ "C07-A2": ("Iter: each end tracks its own exhaustion; next_back leaves the front cursor on the yielded entry", "last element taken by next_back, then next(): yields entries again and walks onto the seal"),
+ "C07-B2": ("get_lru re-links by hand with a head pointer read before unhinging", "get_lru on a cache holding exactly one entry: the entry is linked to itself"),
  "C20-B": ("insert_untracked reallocates when capacity <= len + 1 (off by one): clone of an exactly full table rehashes everything again", "cloning a cache with len() == capacity() (7, 14, ...)"),
 }
 def main():
